@@ -338,6 +338,12 @@ MODELLED = {
     ("dev.py", "Device.channel_get"): {},
     ("dev.py", "Device.en_channels_update"): {},
     ("dev.py", "Device.div_channels_update"): {},
+    ("intf/serial.py", "SerialDevice.__init__"): {},
+    ("intf/serial.py", "SerialDevice._read"): {},
+    ("intf/serial.py", "SerialDevice._write"): {},
+    ("intf/serial.py", "SerialDevice.drop_all"): {},
+    ("intf/serial.py", "SerialDevice.start"): {},
+    ("intf/serial.py", "SerialDevice.stop"): {},
     ("thread.py", "ThreadCommon.__init__"): {},
     ("thread.py", "ThreadCommon._stop_is_set"): {},
     ("thread.py", "ThreadCommon._thread_loop"): {},
@@ -361,6 +367,7 @@ DEPENDS = {
     "C01": ["SerialFrame."],
     "C02": ["SerialFrame.", "ParseRecv.recv_handle", "ParseRecv._recv_cb"],
     "C13": ["ThreadCommon."],
+    "C18": ["SerialDevice.", "CommInterfaceCommon."],
     "C12": ["CommHandler._nxslib_channels", "CommHandler.ch_", "CommHandler._channels_init", "CommHandler.channels_",
             "CommHandler._get_ack", "NxscopeHandler._stream_thread", "NxscopeHandler.stream_sub", "NxscopeHandler.stream_unsub",
             "Device.en_channels_update", "Device.div_channels_update", "Device.channel_get"],
